@@ -18,6 +18,7 @@ package responder
 //@ props C10 C16
 //@ func NewRawHTTPResponder
 //@   nopanic
+//@   inline
 //@   ensures [C10] result != nil && ident(result.writer) == ident(writer) && result.response != nil && result.response.Header != nil && (forall k key :: !in(result.response.Header, k))
 
 //@ props C08 C10 C01 C16
